@@ -259,7 +259,13 @@ func ruleGCScansEverything(c *Ctx, rule string) {
 			c.undecided(rule, fn, "shouldCleanup", nil, "no decision call")
 			continue
 		}
-		// outermost loop header dominating the decision call
+		// outermost loop header dominating the decision call (or, when the per-directory body moved into a helper, the call of that
+		// helper: a return inside the helper is the `continue` of this loop)
+		at := siteIn(fn, sc[0])
+		if at == nil {
+			c.undecided(rule, fn, "scan loop", nil, "shouldCleanup is not reached from the collector through one static call")
+			continue
+		}
 		var h *ssa.BasicBlock
 		for _, b := range fn.Blocks {
 			back := false
@@ -268,7 +274,7 @@ func ruleGCScansEverything(c *Ctx, rule string) {
 					back = true
 				}
 			}
-			if back && b.Dominates(sc[0].Block()) && (h == nil || b.Dominates(h)) {
+			if back && b.Dominates(at.Block()) && (h == nil || b.Dominates(h)) {
 				h = b
 			}
 		}
